@@ -4,6 +4,8 @@ mod cmd_domains;
 mod cmd_transcript;
 mod cmd_vector;
 mod cmd_table;
+mod cmd_pow;
+mod cmd_queries;
 mod merkle;
 mod hashes;
 mod terms;
@@ -21,6 +23,8 @@ fn main() {
         "transcript" => cmd_transcript::run(rest),
         "vector" => cmd_vector::run(rest),
         "table" => cmd_table::run(rest),
+        "pow" => cmd_pow::run(rest),
+        "queries" => cmd_queries::run(rest),
         "build-info" => {
             println!("{}", build_info());
         }
